@@ -711,3 +711,19 @@ func init() {
 		Run:             runC16,
 	})
 }
+
+
+// RawUpstream is an exported handle on a raw (non-reconnecting) upstream connection.
+type RawUpstream struct{ rc *rawClient }
+
+// DialRawUpstream opens a raw upstream connection for endpoint ep on node n.
+func DialRawUpstream(n *Node, ep string) (*RawUpstream, error) {
+	rc, err := dialRaw(n, ep, "")
+	if err != nil {
+		return nil, err
+	}
+	return &RawUpstream{rc}, nil
+}
+
+func (r *RawUpstream) Ended() bool { return r.rc.ended.Load() }
+func (r *RawUpstream) Close()      { r.rc.sess.Close() }
